@@ -306,6 +306,30 @@ struct runner
         fail("child_position-self", "node reported as its own child");
         return;
       }
+      // "the position where THIS OBJECT resides": identity, not equality.  A look-alike standing on its own (a deep copy of
+      // a child) is nobody's child, and of two deep-equal siblings each one is found at its own position.
+      if (!n.empty())
+      {
+        T twin(*n.begin());
+        if (fcppt::container::tree::child_position(n, twin).has_value())
+        {
+          fail("child_position/look-alike-found", "a free-standing deep copy of child 0 of " + pstr(ri, p) + " is reported as a child");
+          return;
+        }
+        T cp(n);
+        cp.insert(cp.end(), T(*cp.begin())); // now the first and the last child are deep-equal
+        std::size_t k = 0;
+        for (auto it = cp.begin(); it != cp.end(); ++it, ++k)
+        {
+          auto pos = fcppt::container::tree::child_position(cp, *it);
+          if (!pos.has_value() || pos.get_unsafe() != it)
+          {
+            fail("child_position/deep-equal-siblings", "child " + std::to_string(k) + " of a copy of " + pstr(ri, p) + " with a deep-equal sibling is not found at its own position");
+            return;
+          }
+        }
+        VF_COUNT("child_position/deep-equal-siblings");
+      }
     }
   }
 
